@@ -197,8 +197,17 @@ def audit(prop, modules):
             problems.append("missing module " + m)
             continue
         txt = strip_comments(open(path).read())
-        for mm in re.finditer(r"^\s*theorem\s+(%s_[A-Za-z0-9_']+)" % prop, txt, re.M):
-            thms.append(mm.group(1))
+        ns = []
+        for line in txt.split("\n"):
+            m0 = re.match(r"^\s*namespace\s+([A-Za-z0-9_.']+)", line)
+            if m0:
+                ns.append(m0.group(1)); continue
+            m0 = re.match(r"^\s*end\s+([A-Za-z0-9_.']+)\s*$", line)
+            if m0 and ns and ns[-1] == m0.group(1):
+                ns.pop(); continue
+            mm = re.match(r"^\s*(?:private\s+|protected\s+)?theorem\s+(%s_[A-Za-z0-9_']+)" % prop, line)
+            if mm:
+                thms.append(".".join(ns + [mm.group(1)]))
     discharged = 0
     per = {}
     if thms:
@@ -207,7 +216,6 @@ def audit(prop, modules):
         with open(af, "w") as f:
             for m in modules:
                 f.write("import %s\n" % m)
-            f.write("open SimVerif\n")
             for t in thms:
                 f.write("#print axioms %s\n" % t)
         r = sh(["lake", "env", "lean", af], cwd=LEAN)
@@ -215,8 +223,8 @@ def audit(prop, modules):
         out = r.stdout
         # parse: "'SimVerif.C02_x' depends on axioms: [propext, ...]" or "does not depend on any axioms"
         for t in thms:
-            m1 = re.search(r"'(?:SimVerif\.)?%s' depends on axioms: \[([^\]]*)\]" % re.escape(t), out, re.S)
-            m2 = re.search(r"'(?:SimVerif\.)?%s' does not depend on any axioms" % re.escape(t), out)
+            m1 = re.search(r"'%s' depends on axioms: \[([^\]]*)\]" % re.escape(t), out, re.S)
+            m2 = re.search(r"'%s' does not depend on any axioms" % re.escape(t), out)
             if m2:
                 per[t] = []; discharged += 1
             elif m1:
